@@ -8,7 +8,7 @@ The model is asked through the compiled driver (`asf op=save|delete|save2|walk|d
 environment variable VERIF_ASF_DRIVER holds a command line, that command is run instead (one request per
 line on stdin, one answer per line on stdout)."""
 import io, os, shlex, struct, subprocess
-from vcheck import hx
+from vcheck import hx, REPO
 from guards import timed
 import refdec
 
@@ -192,6 +192,18 @@ def patch_file_size(top, rest):
             for it in top]
 
 
+def with_file_size(top, total):
+    """what a save makes of the foreign children: the first File Properties Object among the children of the Header Object
+    gets File Size (payload bytes 16..24) = length of the saved file; nothing else changes"""
+    out, done = [], False
+    for it in top:
+        if not done and it[0] == "f" and it[1] == G["fileprops"]:
+            it = ("f", it[1], it[2][:16] + struct.pack("<Q", total) + it[2][24:])
+            done = True
+        out.append(it)
+    return out
+
+
 def gen_rest(rng):
     n = rng.choice([0, 50, 400, 3000])
     data = obj(G["data"], rbytes(rng, 26 + n))
@@ -264,10 +276,10 @@ def gen_file(rng):
         lay = dict(top=patch_file_size(top, rest), rest=rest)
         return render_layout(lay["top"], rest), "plain", lay
     if kind == "sample":
-        with open(os.path.join("/repo/tests/data", rng.choice(SAMPLES)), "rb") as h:
+        with open(os.path.join(REPO, "tests", "data", rng.choice(SAMPLES)), "rb") as h:
             return h.read(), kind, None
     if kind == "sample-cut":
-        with open(os.path.join("/repo/tests/data", rng.choice(SAMPLES)), "rb") as h:
+        with open(os.path.join(REPO, "tests", "data", rng.choice(SAMPLES)), "rb") as h:
             d = h.read()
         return d[:rng.choice([4983, 4984, 5038, 5044, 5100, 7000, 3000, 1000])], kind, None
     objects = [item_object(i) for i in top]
@@ -649,8 +661,16 @@ def check_save(ctx, lay, out, pairs, pad, offered, case, op="save"):
     if rest != lay["rest"]:
         ctx.violation(key + "rest-changed", "the bytes behind the Header Object changed", case)
         return
-    if [i for i in top if i[0] == "f"] != [i for i in old if i[0] == "f"]:
-        ctx.violation(key + "foreign-object-changed", "the foreign children of the Header Object are not byte-identical and in order", case)
+    # C03: File Properties Object: File Size (the first one is the file's; further ones, not allowed by the format, stay as they are)
+    for i in top:
+        if i[0] == "f" and i[1] == G["fileprops"] and len(i[2]) >= 24:
+            fs = struct.unpack("<Q", i[2][16:24])[0]
+            if fs != len(out):
+                ctx.violation("asf:%s:file-size-stale" % op, "File Properties Object: File Size says %d, the file has %d bytes" % (fs, len(out)), case)
+            break
+    if [i for i in with_file_size(top, 0) if i[0] == "f"] != [i for i in with_file_size(old, 0) if i[0] == "f"]:
+        ctx.violation(key + "foreign-object-changed", "the foreign children of the Header Object are not byte-identical (but for the File Size field "
+                      "of the first File Properties Object) and in order", case)
         return
     old_ext = [i for i in old if i[0] == "ext"]
     new_ext = [i for i in top if i[0] == "ext"]
@@ -699,13 +719,6 @@ def check_save(ctx, lay, out, pairs, pad, offered, case, op="save"):
         avail = old_hlen - needed
         if 0 <= avail <= 1024 and got_pad != avail:
             ctx.violation(key + "default-does-not-reuse", "default padding: %d bytes were available (<= 1 KiB), the file has %d" % (avail, got_pad), case)
-    # C03: File Properties Object: File Size
-    for i in top:
-        if i[0] == "f" and i[1] == G["fileprops"] and len(i[2]) >= 24:
-            fs = struct.unpack("<Q", i[2][16:24])[0]
-            if fs != len(out) and fs == case["_len"]:
-                ctx.violation("asf:%s:file-size-stale" % op, "File Properties Object: File Size says %d, the file has %d bytes "
-                              "(the field was right before the save)" % (fs, len(out)), case)
     # the tags: every value in an object that can hold it, nothing dropped or duplicated, order kept
     try:
         dec = refdec.asf_tags(out)
@@ -724,7 +737,13 @@ def check_damaged(ctx, lay, op, out, case):
     key = "asf:%s:damaged:" % op
     pos = 0
     for blob in lay["objects"]:
-        at = out.find(blob, pos)
+        if blob[:16] == G["fileprops"] and len(blob) >= 48:
+            # the File Size field (bytes 40..48 of the object) may have been brought up to date
+            at = out.find(blob[:40], pos)
+            while at >= 0 and out[at + 48:at + len(blob)] != blob[48:]:
+                at = out.find(blob[:40], at + 1)
+        else:
+            at = out.find(blob, pos)
         if at < 0:
             ctx.violation(key + "object-lost", "a foreign object (%d bytes, GUID %s) that is in the file is no longer there after %s (input: %s)" % (
                 len(blob), blob[:16].hex(), op, lay["damaged"]), case)
@@ -760,6 +779,7 @@ def expected_after_delete(lay):
     if "ext" not in kinds(top):
         top.append(("ext", [("m", e["m"]), ("ml", e["ml"])]))
     top.append(("pad", b""))
+    top = with_file_size(top, len(render_layout(top, lay["rest"])))
     return render_layout(top, lay["rest"]), top
 
 
@@ -795,10 +815,21 @@ def run(ctx):
     # the three sample files first, with every operation
     forced = []
     for name in SAMPLES:
-        with open(os.path.join("/repo/tests/data", name), "rb") as h:
+        with open(os.path.join(REPO, "tests", "data", name), "rb") as h:
             d0 = h.read()
         forced += [(d0, "sample", op0) for op0 in ("save", "delete", "save2")]
         reqs.append(("asf op=walk data=%s" % hx(d0), real_walk(ASF(io.BytesIO(d0))), dict(kind="sample", op="walk", name=name)))
+    # a Header Object nested in the header / in the Header Extension: a MutagenError at load (model: `.mutagen`)
+    from mutagen import MutagenError
+    inner = obj(G["header"], b"\0" * 6)
+    for where, d0 in (("header", header_bytes([obj(G["bitrate"], b"\0" * 8), inner]) + obj(G["data"], b"\0" * 26)),
+                      ("extension", header_bytes([obj(G["ext"], EXT_RESERVED + struct.pack("<I", len(inner)) + inner)]) + obj(G["data"], b"\0" * 26))):
+        k0, r0 = timed(lambda: ASF(io.BytesIO(d0)), 20)
+        desc0 = dict(kind="header-in-header", op="walk", where=where, data=hx(d0))
+        if k0 != "exc" or not isinstance(r0, MutagenError):
+            ctx.violation("asf:load:nested-header-escapes", "a Header Object inside the %s: %s instead of a MutagenError" % (
+                where, "loads" if k0 == "ok" else classify(r0) if k0 == "exc" else k0), desc0)
+        reqs.append(("asf op=walk data=%s" % hx(d0), "err mutagen" if k0 == "exc" and isinstance(r0, MutagenError) else "ok" if k0 == "ok" else classify(r0), desc0))
     for i in range(n):
         if i < len(forced):
             data, kind, op = forced[i]
@@ -823,7 +854,11 @@ def run(ctx):
             reqs.append((line, impl, dict(desc, step="load")))
             if lay is not None and "damaged" not in lay:
                 ctx.violation("asf:load:raises", "%s on a well-formed file" % impl, desc)
+            if kind == "header-in-header" and impl != "err mutagen":
+                ctx.violation("asf:load:nested-header-escapes", "a Header Object inside the header: %s instead of a MutagenError" % impl, desc)
             continue
+        if kind == "header-in-header":
+            ctx.violation("asf:load:nested-header-accepted", "a file with a Header Object inside the header loads", desc)
         if rng.random() < 0.35:
             reqs.append(("asf op=walk data=%s" % hx(data), real_walk(a), dict(desc, op="walk")))
         loaded = list(a.tags)
@@ -907,18 +942,18 @@ def run(ctx):
                 parsed = strict_layout(out)
                 if parsed is None:
                     ctx.violation("asf:delete:malformed", "after delete the header is not well-formed", case)
-                elif [x for x in parsed[0] if x[0] == "f"] != [x for x in lay["top"] if x[0] == "f"] or parsed[1] != lay["rest"]:
+                elif [x for x in parsed[0] if x[0] == "f"] != [x for x in with_file_size(lay["top"], len(out)) if x[0] == "f"] or parsed[1] != lay["rest"]:
                     ctx.violation("asf:delete:foreign-object-changed", "delete changed a foreign object or the data behind the header", case)
                 else:
                     ctx.violation("asf:delete:wrong-result", "delete did not leave exactly: the foreign objects, the four metadata objects empty, "
                                   "an empty Padding Object", case)
                 continue
-            for it in exp_top:
+            for it in strict_layout(out)[0]:
                 if it[0] == "f" and it[1] == G["fileprops"] and len(it[2]) >= 24:
                     fs = struct.unpack("<Q", it[2][16:24])[0]
-                    if fs != len(out) and fs == len(data):
-                        ctx.violation("asf:delete:file-size-stale", "File Properties Object: File Size says %d, the file has %d bytes "
-                                      "(the field was right before the delete)" % (fs, len(out)), case)
+                    if fs != len(out):
+                        ctx.violation("asf:delete:file-size-stale", "File Properties Object: File Size says %d, the file has %d bytes" % (fs, len(out)), case)
+                    break
             # deleting again (freshly loaded) changes nothing; new tags can be saved
             f2 = io.BytesIO(out)
             k2, a2 = timed(lambda: ASF(f2), 20)
